@@ -197,6 +197,9 @@ def strip_casts(e):
     return e
 
 
+SHOW_ALIAS = None  # optional {decl id: canonical rendering} applied to local/param references (set by schema summaries)
+
+
 def show(e, depth=0):
     """canonical, human-readable rendering of an expression (used as keys and in reports)"""
     if e is None:
@@ -219,6 +222,8 @@ def show(e, depth=0):
     if k == "This":
         return "this"
     if k == "Ref":
+        if SHOW_ALIAS and e.get("id") in SHOW_ALIAS and e.get("rk") in ("local", "param"):
+            return SHOW_ALIAS[e["id"]]
         return e.get("qn") if e.get("rk") in ("enumconst",) else e["name"]
     if k == "Member":
         b = e.get("base")
